@@ -122,7 +122,8 @@ package dragonboat
 // notified by this operation and nothing can reach a removed request through the table again.
 //@ pred (p *proposalShard) wf() := p.pending != nil &&
 //@   (forall k uint64 :: k in p.pending ==> p.pending[k] != nil && p.pending[k].CompletedC != nil) &&
-//@   (forall k1 uint64, k2 uint64 :: k1 in p.pending && k2 in p.pending && k1 != k2 ==> p.pending[k1] != p.pending[k2] && p.pending[k1].CompletedC != p.pending[k2].CompletedC)
+//@   (forall k1 uint64, k2 uint64 :: k1 in p.pending && k2 in p.pending && k1 != k2 ==> p.pending[k1] != p.pending[k2] && p.pending[k1].CompletedC != p.pending[k2].CompletedC) &&
+//@   (forall k1 uint64, k2 uint64 :: k1 in p.pending && k2 in p.pending ==> p.pending[k1].committedC != p.pending[k2].CompletedC)
 
 //@ func (p *proposalShard) getTick [C12]
 //@ trusted reads the logical clock
@@ -156,3 +157,29 @@ package dragonboat
 //@ loop 1 invariant p.pending != nil && held(p.mu) == 2
 //@ loop 1 invariant forall k uint64 :: k in p.pending ==> old(k in p.pending) && p.pending[k] == old(p.pending[k]) && len(p.pending[k].CompletedC) == old(len(p.pending[k].CompletedC))
 //@ loop 1 invariant forall k uint64 :: old(k in p.pending) && !(k in p.pending) ==> visited(k)
+
+//@ func (p *proposalShard) applied [C12]
+//@ noframe
+//@ requires p.wf() && held(p.mu) == 0
+//@ modifies held(p.mu), entries(p.pending), p.lastGcTime, p.expireNotified
+//@ ensures forall k uint64 :: k in p.pending ==> old(k in p.pending) && p.pending[k] == old(p.pending[k]) && len(p.pending[k].CompletedC) == old(len(p.pending[k].CompletedC))
+
+// a Committed notification goes to the matching request only and removes nothing
+//@ func (p *proposalShard) committed [C12]
+//@ noframe
+//@ requires p.wf() && held(p.mu) == 0
+//@ modifies held(p.mu)
+//@ ensures forall k uint64 :: (k in p.pending) == old(k in p.pending)
+//@ ensures forall k uint64 :: k in p.pending ==> p.pending[k] == old(p.pending[k]) && len(p.pending[k].CompletedC) == old(len(p.pending[k].CompletedC))
+
+// stopping the shard terminates everything still pending, once, and closes the table for good
+//@ func (p *proposalShard) close [C12]
+//@ noframe
+//@ requires p.wf() && held(p.mu) == 0
+//@ modifies held(p.mu), p.stopped
+//@ ensures p.stopped && held(p.mu) == 0
+//@ ensures forall k uint64 :: k in p.pending ==> len(p.pending[k].CompletedC) == old(len(p.pending[k].CompletedC)) + 1
+//@ loop 1 invariant p.pending != nil && p.stopped && held(p.mu) == 2 && (forall k uint64 :: (k in p.pending) == old(k in p.pending)) && (forall k uint64 :: k in p.pending ==> p.pending[k] == old(p.pending[k]))
+//@ loop 1 invariant forall k uint64 :: k in p.pending ==> len(p.pending[k].CompletedC) == old(len(p.pending[k].CompletedC)) + ite(visited(k), 1, 0)
+//@ func (q *entryQueue) close [C12]
+//@ trusted stops the proposal queue
